@@ -725,3 +725,6 @@ Proof.
     + intros r Hr. discriminate Hr.
   - split; [split; vm_compute; intro X; discriminate X | vm_compute; intro X; discriminate X].
 Qed.
+
+(* restore the development's default arithmetic hook for files loaded after this one *)
+Ltac Zify.zify_post_hook ::= Z.div_mod_to_equations.
